@@ -13,6 +13,7 @@
 // Inputs the library refuses (exceptions) are counted, never reported.
 #include <opm/input/eclipse/Parser/Parser.hpp>
 #include <opm/input/eclipse/Deck/Deck.hpp>
+#include <opm/input/eclipse/EclipseState/EclipseState.hpp>
 #include <opm/input/eclipse/EclipseState/Runspec.hpp>
 #include <opm/input/eclipse/EclipseState/Tables/TableManager.hpp>
 #include <opm/input/eclipse/EclipseState/Grid/EclipseGrid.hpp>
@@ -252,6 +253,9 @@ struct Arr {
     std::vector<uint8_t> st;
     std::vector<int> lastop;         // index of the operation that wrote the cell last (-1: keyword default)
     std::vector<int> topsrc;         // cell whose value was taken by the "lower planes default to the top plane" rule, else -1
+    bool afterCopyreg = false;       // values (partly) stem from a COPYREG into an array the library also stores for all cells
+    bool afterRegionOp = false;      // ... or from EQUALREG/ADDREG/MULTIREG/OPERATER on such an array
+    bool hadTopDefault = false;      // some cell took a top plane value at some time
 };
 
 struct Ref {
@@ -263,6 +267,7 @@ struct Ref {
     std::string refusal;                // first operation the documented rules do not define (evaluated for ALL cells)
     int curop = -1;
     bool finite = true;                 // all values finite and of moderate size
+    std::vector<std::pair<int, int>> topPairs;   // (cell, top plane cell it took its value from)
     explicit Ref(const Case& c) : cs(c), N(c.N), alive(c.N, 1) { fullBox(ibox); }
 
     void fullBox(Box& b) const { for (int d = 0; d < 3; ++d) { b.lo[d] = 0; b.hi[d] = cs.n[d] - 1; } }
@@ -361,7 +366,7 @@ struct Ref {
                 int col = c % (cs.n[0] * cs.n[1]);
                 if (a.st[c] == UNINIT && at[col] >= 0) {
                     if (op.dflt[at[col]]) { refuse("top plane entry defaulted"); continue; }
-                    write(a, c, op.data[at[col]], DEFLT); a.topsrc[c] = col;
+                    write(a, c, op.data[at[col]], DEFLT); a.topsrc[c] = col; a.hadTopDefault = true; topPairs.emplace_back(c, col);
                 }
             }
         }
@@ -397,7 +402,7 @@ struct Ref {
             }
         }
     }
-    void copyCells(const std::string& src, const std::string& dst, const std::vector<int>& cl) {
+    void copyCells(const std::string& src, const std::string& dst, const std::vector<int>& cl, bool byRegion = false) {
         if (!has(src)) { refuse("COPY source missing: " + src); return; }
         const KwInfo& ks = kwinfo(src); const KwInfo& kd = kwinfo(dst);
         if (ks.isInt != kd.isInt) { refuse("COPY between integer and floating arrays"); return; }
@@ -405,6 +410,9 @@ struct Ref {
         if (!fullyDefined(s)) { refuse("COPY source not fully defined: " + src); return; }
         if (kd.glob != ks.glob && kd.glob) { refuse("COPY across storage classes"); return; }
         Arr& d = get(dst);
+        if (s.afterCopyreg || (byRegion && kd.glob && !cl.empty())) d.afterCopyreg = true;
+        if (s.afterRegionOp) d.afterRegionOp = true;
+        if (s.hadTopDefault) d.hadTopDefault = true;
         for (int c : cl) {
             if (s.st[c] != DECKV) { refuse("COPY from a defaulted cell of " + src); continue; }
             write(d, c, s.v[c], DECKV);
@@ -434,6 +442,9 @@ struct Ref {
         Arr s = get(r.b);
         if (kt.glob && !ks.glob) { refuse("OPERATE across storage classes"); return; }
         const bool needTarget = r.func == "MULTIPLY" || r.func == "POLY";
+        if (s.afterCopyreg && !cl.empty()) t.afterCopyreg = true;
+        if (s.afterRegionOp && !cl.empty()) t.afterRegionOp = true;
+        if (s.hadTopDefault && !cl.empty()) t.hadTopDefault = true;
         for (int c : cl) {
             if (s.st[c] == UNINIT || (needTarget && t.st[c] == UNINIT)) { refuse("OPERATE reads undefined cell"); continue; }
             write(t, c, fn(r.func, t.v[c], s.v[c], r.alpha, r.beta), s.st[c], std::max({std::fabs(s.v[c]), std::fabs(r.alpha), std::fabs(r.beta)}));
@@ -462,6 +473,7 @@ struct Ref {
                 const KwInfo& k = kwinfo(r.a);
                 Arr& a = get(r.a);               // region operations bring the target into being
                 auto cl = regionCells(r.regset, r.region, false);
+                if (k.glob && !cl.empty()) a.afterRegionOp = true;
                 for (int c : cl) {
                     if (op.kw == "EQUALREG") write(a, c, scalarApply(k.isInt ? "EQUALS" : op.kw, 0, r.val, k.isInt), DECKV);
                     else if (a.st[c] == UNINIT) refuse(op.kw + " on undefined cell of " + r.a);
@@ -469,8 +481,14 @@ struct Ref {
                 }
             }
             break;
-        case K_COPYREG: for (auto& r : op.recs) { auto cl = regionCells(r.regset, r.region, false); copyCells(r.a, r.b, cl); } break;
-        case K_OPERATER: for (auto& r : op.recs) { get(r.a); auto cl = regionCells(r.regset, r.region, true); if (!cl.empty()) operateCells(r, cl); } break;
+        case K_COPYREG: for (auto& r : op.recs) { auto cl = regionCells(r.regset, r.region, false); copyCells(r.a, r.b, cl, true); } break;
+        case K_OPERATER:
+            for (auto& r : op.recs) {
+                Arr& t = get(r.a); auto cl = regionCells(r.regset, r.region, true);
+                if (kwinfo(r.a).glob && !cl.empty()) t.afterRegionOp = true;
+                if (!cl.empty()) operateCells(r, cl);
+            }
+            break;
         }
     }
     void endSection(char sec) {
@@ -803,7 +821,7 @@ static Case genCase(Rng& rng, long idx, Flags& fl) {
     }
     Gen g(rng, cs);
     fl.expectRefusal = rng.chance(0.02);
-    fl.topPlane = cs.n[2] > 1 && rng.chance(0.08);
+    fl.topPlane = cs.n[2] > 1 && rng.chance(0.05);
 
     int total = 1 + (int)rng.below(25);
     static const double W[5] = {0.38, 0.12, 0.14, 0.14, 0.22};
@@ -882,7 +900,7 @@ static Case genCase(Rng& rng, long idx, Flags& fl) {
                 cs.ops.push_back(op);
             }
         }
-        if (sec == 'R' && rng.chance(0.04)) {
+        if (sec == 'R' && rng.chance(0.02)) {
             // region assignment to an integer array (quarantined: nothing reads the target afterwards)
             static const char* tg[] = {"PVTNUM", "EQLNUM", "FIPNUM", "MISCNUM"};
             Op op; op.kind = K_REGSCALAR; op.sec = sec; op.kw = "EQUALREG"; Rec r; r.a = tg[rng.below(4)]; r.val = (double)rng.range(2, 7); r.region = (int)rng.range(1, 2); r.regset = 0;
@@ -890,7 +908,7 @@ static Case genCase(Rng& rng, long idx, Flags& fl) {
             auto after = replay(cs);
             if (!after->refusal.empty()) cs.ops.pop_back(); else fl.probeIntReg = true;
         }
-        if (sec == 'S' && rng.chance(0.05)) {
+        if (sec == 'S' && rng.chance(0.02)) {
             // scalar arithmetic on the temperature array (quarantined: last operation of the deck)
             Op e; e.kind = K_ENDBOX; e.sec = sec; e.kw = "ENDBOX"; cs.ops.push_back(e);
             Op d = g.direct(sec, kwinfo("TEMPI"), Box{{0, 0, 0}, {cs.n[0] - 1, cs.n[1] - 1, cs.n[2] - 1}}, *replay(cs), false); cs.ops.push_back(d);
@@ -912,16 +930,27 @@ struct LibOut {
     std::map<std::string, LibArr> arr;
 };
 
-static LibOut runLibrary(const Opm::Parser& parser, const std::string& text, const Case& cs) {
+static LibOut runLibrary(const Opm::Parser& parser, const std::string& text, const Case& cs, bool viaEclipseState) {
     LibOut out;
     out.stage = "parse";
     try {
         const auto deck = parser.parseString(text);
         out.stage = "state";
-        Opm::TableManager tables(deck);
-        Opm::Runspec runspec(deck);
-        Opm::EclipseGrid grid(deck, nullptr);
-        Opm::FieldPropsManager fp(deck, runspec.phases(), grid, tables, runspec.numComps());
+        // either the complete EclipseState, or its first construction steps only
+        std::unique_ptr<Opm::EclipseState> es;
+        std::unique_ptr<Opm::TableManager> tables;
+        std::unique_ptr<Opm::Runspec> runspec;
+        std::unique_ptr<Opm::EclipseGrid> ownGrid;
+        std::unique_ptr<Opm::FieldPropsManager> ownFp;
+        if (viaEclipseState) es = std::make_unique<Opm::EclipseState>(deck);
+        else {
+            tables = std::make_unique<Opm::TableManager>(deck);
+            runspec = std::make_unique<Opm::Runspec>(deck);
+            ownGrid = std::make_unique<Opm::EclipseGrid>(deck, nullptr);
+            ownFp = std::make_unique<Opm::FieldPropsManager>(deck, runspec->phases(), *ownGrid, *tables, runspec->numComps());
+        }
+        const Opm::FieldPropsManager& fp = es ? es->fieldProps() : *ownFp;
+        const Opm::EclipseGrid& grid = es ? es->getInputGrid() : *ownGrid;
         out.stage = "query";
         out.actnum = grid.getACTNUM();
         if ((int)out.actnum.size() != cs.N) { out.err = "ACTNUM size"; return out; }
@@ -1017,19 +1046,49 @@ int main(int argc, char** argv) {
         rep.cover("operations_per_case", nops <= 5 ? "1-5" : nops <= 12 ? "6-12" : nops <= 20 ? "13-20" : "21+");
         rep.cover("actnum", inactive == 0 ? "all active" : interiorHole ? "interior holes" : "boundary holes");
 
-        LibOut A = runLibrary(parser, deckA, cs);
-        LibOut B = runLibrary(parser, deckB, cs);
+        // odd cases go through the complete EclipseState, even ones through its first construction steps only
+        const bool viaES = (idx % 2) == 1;
+        LibOut A = runLibrary(parser, deckA, cs, viaES);
+        if (viaES && !A.ok && A.stage == "state") {
+            LibOut A2 = runLibrary(parser, deckA, cs, false);
+            if (A2.ok) { rep.count("refused_by_EclipseState_only"); rep.cover("eclipsestate_only_refusal", A.err.substr(0, 80)); A = A2; }
+        }
+        LibOut B = runLibrary(parser, deckB, cs, false);
+        rep.cover("construction", viaES ? "EclipseState" : "FieldPropsManager constructor");
         auto witness = [&](const std::string& extra) {
             std::ostringstream w; w << extra << "\n--- deck (with ACTNUM) ---\n" << deckA;
             return w.str();
         };
         const bool refRefuses = !ref->refusal.empty();
+        // A lower-plane cell took its value from a top plane cell that is inactive: the library is known to lose the
+        // value there (own key); everything else that goes wrong in such a case is attributed to that.
+        static const std::string TOPKEY = "top-plane-default-inactive-top-cell";
+        bool topHazard = false;
+        for (auto& pr : ref->topPairs) if (cs.eff[pr.first] && !cs.eff[pr.second]) topHazard = true;
+        auto keyOf = [&](const std::string& k) { return topHazard ? TOPKEY : k; };
+        auto shortMsg = [](std::string m) {
+            size_t a = m.find("In <memory string>");
+            if (a != std::string::npos) { size_t b = m.find('\n', a); m.erase(a, b == std::string::npos ? std::string::npos : b - a + 1); }
+            for (auto& ch : m) if (ch == '\n') ch = ' ';
+            // drop numbers so that equal messages fall together
+            std::string o; for (char ch : m) { if (isdigit((unsigned char)ch)) { if (o.empty() || o.back() != '#') o += '#'; } else o += ch; }
+            return o.substr(0, 90);
+        };
+        // The library keeps a second, all-cells copy of PERM* and MULTZ*; top plane defaults, COPYREG and the definedness set by
+        // region operations do not reach it, and later operations on these arrays are then refused (counted apart).
+        bool globalCopyHazard = false;
+        for (auto& kv : ref->A) if (kv.second.exists && kwinfo(kv.first).glob && (kv.second.afterCopyreg || kv.second.afterRegionOp || kv.second.hadTopDefault)) globalCopyHazard = true;
         for (const LibOut* L : {&A, &B}) {
             if (L->ok) continue;
-            if (L->stage == "parse") { rep.count("deck_rejected_by_parser"); rep.cover("parser_message", L->err.substr(0, 60)); }
-            else if (L->stage == "query") rep.violation("accessor-inconsistent", L->err, witness(L->err));
+            if (L->stage == "parse") { rep.count("deck_rejected_by_parser"); rep.cover("parser_message", shortMsg(L->err)); }
+            else if (L->stage == "query") rep.violation(keyOf("accessor-inconsistent"), L->err, witness(L->err));
             else if (refRefuses) rep.count("refused_as_expected");
-            else { rep.count(L == &A ? "refused_unexpected" : "refused_unexpected_all_active"); rep.cover("refusal_message", L->err.substr(0, 70)); }
+            else if (topHazard && L == &A) rep.count("refused_in_top_plane_hazard_case");
+            else if (globalCopyHazard) rep.count("refused_after_all_cells_copy_lost_track");
+            else {
+                rep.count(L == &A ? "refused_unexpected" : "refused_unexpected_all_active"); rep.cover("refusal_message", shortMsg(L->err));
+                if (args.geti("dump_refused", 0)) fprintf(stderr, "=== case %ld refused (%s): %s\n%s\n", idx, L == &A ? "input ACTNUM" : "all active", L->err.c_str(), (L == &A ? deckA : deckB).c_str());
+            }
         }
         if (refRefuses) { rep.count("cases_reference_refuses"); if (A.ok) rep.count("accepted_where_reference_refuses"); }
         bool nontrivial = false;
@@ -1045,7 +1104,7 @@ int main(int argc, char** argv) {
                 bool top = false;
                 if (ref->has("PORO")) { int t = ref->A["PORO"].topsrc[c]; top = t >= 0 && !cs.eff[t]; }
                 std::ostringstream w; w << "cell " << c << " of " << cs.n[0] << "x" << cs.n[1] << "x" << cs.n[2] << ": library ACTNUM " << A.actnum[c] << ", expected " << int(expectActive[c]);
-                rep.violation(top ? "top-plane-default-inactive-top-cell" : "active-set-mismatch", w.str(), witness(w.str()));
+                rep.violation(keyOf(top ? TOPKEY : "active-set-mismatch"), w.str(), witness(w.str()));
                 break;
             }
             for (int i = 0; i < NKW; ++i) {
@@ -1074,7 +1133,7 @@ int main(int argc, char** argv) {
                     int cu = c0;
                     for (int c = 0; c < cs.N; ++c) if (A.actnum[c] && expectActive[c] && r.topsrc[c] >= 0 && !cs.eff[r.topsrc[c]]) cu = c;
                     std::string what = std::string(k.name) + " is not available from the library although the reference defines it in every active cell";
-                    rep.violation(classify(cu, "array-unavailable"), what, witness(what));
+                    rep.violation(keyOf(classify(cu, "array-unavailable")), what, witness(what));
                     continue;
                 }
                 rep.cover("array_compared", k.name);
@@ -1087,14 +1146,15 @@ int main(int argc, char** argv) {
                     // tolerance: TOL relative to the largest magnitude met while the reference computed the cell
                     // (sums of values of opposite sign cancel); the library works in SI, the reference in deck units.
                     const double scale = k.isInt ? 0 : std::max(std::fabs(expect), std::fabs(toSI(U, k.dim, r.mag[c])));
-                    const double tol = k.isInt ? 0 : (k.sp == SP_PORV ? 1e-9 : TOL) * scale;
+                    // (pore volumes: 1e-10, the library derives the cell volume from corner points)
+                    const double tol = k.isInt ? 0 : (k.sp == SP_PORV ? 100 * TOL : TOL) * scale;
                     bool bad = !la.has[c] || !(std::fabs(la.v[c] - expect) <= tol);
-                    if (!k.isInt && la.has[c] && scale > 0) rep.maxof(k.sp == SP_PORV ? "max_rel_diff_porv" : "max_rel_diff", std::fabs(la.v[c] - expect) / scale);
+                    if (!bad && !k.isInt && scale > 0) rep.maxof(k.sp == SP_PORV ? "max_rel_diff_porv_agreeing_cells" : "max_rel_diff_agreeing_cells", std::fabs(la.v[c] - expect) / scale);
                     if (bad) {
                         std::ostringstream w; w.precision(17);
                         w << k.name << " cell " << c << " (0-based natural index) of " << cs.n[0] << "x" << cs.n[1] << "x" << cs.n[2] << " " << U.kw << ": library "
                           << (la.has[c] ? "" : "(undefined) ") << la.v[c] << ", reference " << expect << " (deck units " << r.v[c] << "), last written by operation #" << r.lastop[c] << " " << opname(c);
-                        rep.violation(classify(c, "value-mismatch"), w.str(), witness(w.str()));
+                        rep.violation(keyOf(classify(c, "value-mismatch")), w.str(), witness(w.str()));
                         reported = true;
                     }
                     // all-cells view
@@ -1103,7 +1163,10 @@ int main(int argc, char** argv) {
                         if (!(std::fabs(la.glob[c] - expect) <= tol)) {
                             std::ostringstream w; w.precision(17);
                             w << k.name << " cell " << c << ": get_global value " << la.glob[c] << " differs from the active-cell value " << la.v[c] << " (reference " << expect << "), last written by " << opname(c);
-                            rep.violation(r.topsrc[c] >= 0 ? std::string("global-view-misses-top-plane-default") : "global-view-differs:" + std::string(secName(k.sec)) + ":" + opname(c), w.str(), witness(w.str()));
+                            rep.violation(r.topsrc[c] >= 0 ? std::string("global-view-misses-top-plane-default")
+                                          : r.afterCopyreg ? std::string("global-view-stale-after-COPYREG")
+                                          : r.afterRegionOp ? std::string("global-view-wrong-after-region-operation")
+                                          : keyOf("global-view-differs:" + std::string(secName(k.sec)) + ":" + opname(c)), w.str(), witness(w.str()));
                             reported = true;
                         }
                     }
@@ -1132,7 +1195,7 @@ int main(int argc, char** argv) {
                         if (ref->has(k.name)) { const Arr& r = ref->A[k.name]; int o = r.lastop[c]; writer = o < 0 ? "default" : cs.ops[o].kind == K_DIRECT ? "data" : cs.ops[o].kw; top = r.topsrc[c] >= 0 && !cs.eff[r.topsrc[c]]; }
                         std::ostringstream w; w.precision(17);
                         w << k.name << " cell " << c << ": " << (ha ? "" : "(undefined) ") << ia->second.v[c] << " with the input ACTNUM, " << (hb ? "" : "(undefined) ") << ib->second.v[c] << " with all cells active; last written by " << writer;
-                        rep.violation(top ? "top-plane-default-inactive-top-cell" : "depends-on-inactive-cells:" + std::string(k.isInt ? "int" : "double") + ":" + secName(k.sec) + ":" + writer, w.str(), witness(w.str()));
+                        rep.violation(keyOf(top ? TOPKEY : "depends-on-inactive-cells:" + std::string(k.isInt ? "int" : "double") + ":" + secName(k.sec) + ":" + writer), w.str(), witness(w.str()));
                         reported = true;
                         break;
                     }
@@ -1143,7 +1206,7 @@ int main(int argc, char** argv) {
                 bool top = false;
                 if (ref->has("PORO")) { int t = ref->A["PORO"].topsrc[c]; top = t >= 0 && !cs.eff[t]; }
                 std::ostringstream w; w << "cell " << c << " is " << (A.actnum[c] ? "active" : "inactive") << " with the input ACTNUM and " << (B.actnum[c] ? "active" : "inactive") << " when all cells start active";
-                rep.violation(top ? "top-plane-default-inactive-top-cell" : "active-set-depends-on-inactive-cells", w.str(), witness(w.str()));
+                rep.violation(keyOf(top ? TOPKEY : "active-set-depends-on-inactive-cells"), w.str(), witness(w.str()));
                 reported = true;
             }
             rep.count("cells_compared_with_all_active_run", cmp);
@@ -1152,6 +1215,7 @@ int main(int argc, char** argv) {
         if (fl.probeTemp) rep.count("cases_with_temperature_arithmetic");
         if (fl.probeIntReg) rep.count("cases_with_region_assignment_to_integer_array");
         if (fl.topPlane) rep.count("cases_with_top_plane_only_input");
+        if (topHazard) rep.count("cases_with_inactive_top_cell_above_defaulted_cell");
         rep.case_done(vh::fnv(deckA), nontrivial && inactive > 0);
     });
     rep.finish();
